@@ -54,12 +54,18 @@ def c06(res, tier, seed):
     r = yv.rng(seed, "c06")
     exe = yv.driver("asan")
     sds = seeds(tier)
-    budget_per_seed = 140 if tier == "quick" else 8000
+    budget_per_seed = 400 if tier == "quick" else 8000
     records, owners = [], []
     sigs = set()
     evaluations = 0
-    for batch_i in range(0, len(sds), 6):
-        batch = sds[batch_i:batch_i + 6]
+    # per-seed random choices are drawn up front so that the batches can run in parallel and stay reproducible
+    import concurrent.futures as cf, random as _random
+    batch_seeds = {bi: r.getrandbits(64) for bi in range(0, len(sds), 3)}
+
+    def run_batch(batch_i):
+        r = _random.Random(batch_seeds[batch_i])
+        batch = sds[batch_i:batch_i + 3]
+        l_records, l_owners, l_sigs, l_eval, l_viol = [], [], set(), [0], []
         lines = ["init", "opt iterlog 0", "opt logmatches 0", "opt walkmodules 1", "opt flushscan 1", "opt hang 20", "compiler 0", "add 0 - " + yv.hx(RULES.encode()), "getrules 0 0", "cdestroy 0", "scanner 0 0"]
         plan = []
         for si, path in enumerate(batch):
@@ -104,15 +110,22 @@ def c06(res, tier, seed):
                 elif e["msg"] == "finished": cur["fin"] += 1
                 elif e["msg"] in ("match", "nomatch"): cur["sig"].append(e["msg"][0])
             elif e["e"] == "ScanRet" and cur is not None and k < len(plan):
-                records.append({"kind": "modscan", "ret": e["ret"], "nimport": cur["imp"], "nimported": cur["imped"], "finished": cur["fin"], "nmods": len(MODS)})
-                owners.append(plan[k])
-                sigs.add((os.path.basename(plan[k][0]), "".join(cur["sig"])))
-                evaluations += 1
+                l_records.append({"kind": "modscan", "ret": e["ret"], "nimport": cur["imp"], "nimported": cur["imped"], "finished": cur["fin"], "nmods": len(MODS)})
+                l_owners.append(plan[k])
+                l_sigs.add((os.path.basename(plan[k][0]), "".join(cur["sig"])))
+                l_eval[0] += 1
                 cur = None
         if not run.complete:
             bad = plan[k] if (cur is not None and 0 <= k < len(plan)) else (plan[k + 1] if 0 <= k + 1 < len(plan) else ("?", "?"))
-            res.violation("scanning a mutant of %s (%s) crashed / hung / leaked: %s" % (os.path.basename(bad[0]), bad[1], yv.crash_summary(run)),
-                          yv.save_replay("C06", "crash_%d_%d" % (batch_i, k + 1), {"seed": bad[0], "mutation": bad[1], "crash": yv.crash_summary(run), "stderr": (run.stderr or "")[-3000:]}))
+            l_viol.append(("scanning a mutant of %s (%s) crashed / hung / leaked: %s" % (os.path.basename(bad[0]), bad[1], yv.crash_summary(run)),
+                           ("crash_%d_%d" % (batch_i, k + 1), {"seed": bad[0], "mutation": bad[1], "crash": yv.crash_summary(run), "stderr": (run.stderr or "")[-3000:]})))
+        return l_records, l_owners, l_sigs, l_eval[0], l_viol
+
+    with cf.ThreadPoolExecutor(max_workers=min(12, os.cpu_count() or 4)) as ex:
+        for l_records, l_owners, l_sigs, l_ev, l_viol in ex.map(run_batch, sorted(batch_seeds)):
+            records += l_records; owners += l_owners; sigs |= l_sigs; evaluations += l_ev
+            for msg, (rname, robj) in l_viol:
+                res.violation(msg, yv.save_replay("C06", rname, robj))
     # ---- structured family (gen/pegen.py): every table of a generated PE placed last in the file, cut inside it, counts inflated
     import pegen
     fam = pegen.family(r, tier)
